@@ -49,7 +49,7 @@ def v3_shapes(tier):
     S.append(G.v3_publish(2, 3, 1, dup=True, retain=True))
     for t in PID_ONLY:
         S.append(G.v3_pidonly(t))
-    for lens in ((1,), (2,), (1, 1), (2, 1), ()):
+    for lens in ((1,), (2,), (1, 1), (2, 1), (), (0,), (1, 0)):
         S.append(G.v3_subscribe(lens))
         S.append(G.v3_unsubscribe(lens))
     for n in (0, 1, 2, 3):
@@ -114,7 +114,7 @@ def v5_shapes(tier):
         for pl in singles(t):
             S.append(G.v5_ack(t, "long", pl, None))
     S.append(G.v5_ack("Puback", "long", [(0x1F, 1), (0x26, (1, 1)), (0x26, (0, 2))], None))
-    for lens in ((1,), (2, 1), ()):
+    for lens in ((1,), (2, 1), (), (0,), (1, 0)):
         S.append(G.v5_subscribe(lens))
         S.append(G.v5_unsubscribe(lens))
     for v in (1, 127, 128, 268435455):
@@ -156,7 +156,12 @@ def v5_shapes(tier):
     S.append(G.v5_subscribe((1,), [(0x0B, 5)], pd=-1))
     S.append(G.v5_unsubscribe((1,), [(0x26, (1, 2))], pd=-1))
     S.append(G.v5_unsubscribe((2,), [(0x26, (1, 1)), (0x26, (2, 0))]))
-    S.append(G.v5_publish(1, 1, 2, [(0x26, (2, 1)), (0x23, None)]))
+    S.append(G.v5_publish(1, 1, 2, [(0x23, None), (0x26, (2, 1))]))
+    # a property order the encoder never emits (user property first): decode direction only
+    rev = G.v5_publish(1, 1, 2, [(0x26, (2, 1)), (0x23, None)])
+    rev.canonical = False
+    rev.ctor = None
+    S.append(rev)
     S.append(G.v5_unsubscribe((1,), [(0x1F, 1)]))
     S.append(G.v5_codes("Suback", 1, [(0x0B, 1)]))
     S.append(G.v5_disconnect("long", [(0x13, None)]))
